@@ -29,7 +29,7 @@ import (
 
 const bufsimSetup = `
 function O(s,n){ return {valueOf(){ return PV(s,n) }} }
-function CMP(s,d){ return function(a,b){ PV(s,0); var r;
+function CMP(s,d,f){ var c = 0; return function(a,b){ PV(s,0); if (f && c++ === 0) f(); var r;
   if (typeof a === 'bigint') r = a<b?-1:(a>b?1:0);
   else if (a!==a) r = (b!==b)?0:1; else if (b!==b) r = -1; else if (a<b) r = -1; else if (a>b) r = 1;
   else if (a===0) { var na = 1/a<0, nb = 1/b<0; r = na===nb?0:(na?-1:1) } else r = 0;
@@ -104,7 +104,8 @@ type bhost struct {
 	detachedNow map[*mbuf]bool // buffers detached by a fault during the current step
 	allowed     map[*mbuf][]brange
 	lastSpecies *goja.Object
-	aliasNow    *aliasSpec // what a species-alias / species-shrink fault handed out in this step (length form only)
+	isDetached  map[*mbuf]bool // what the host really detached so far (the host is the only party that detaches)
+	aliasNow    *aliasSpec     // what a species-alias / species-shrink fault handed out in this step (length form only)
 	stale       []staleRec
 	hookCalls   int64
 	res         *core.Result
@@ -127,6 +128,7 @@ func (h *bhost) detach(b *mbuf) bool {
 	if !r.ab.Detach() {
 		return false
 	}
+	h.isDetached[b] = true
 	if r.slab != nil {
 		r.slab.revoke()
 	} else if len(old) > 0 {
@@ -644,7 +646,7 @@ func (e *bufsim) runPass(w *bwork, plan []*bfault, res *core.Result, want bool) 
 	pr = &passResult{}
 	cnt := map[string]int64{}
 	m := w.newModel(cnt)
-	h := &bhost{rt: goja.New(), m: m, plan: plan, res: res, detachedNow: map[*mbuf]bool{}, allowed: map[*mbuf][]brange{}}
+	h := &bhost{rt: goja.New(), m: m, plan: plan, res: res, detachedNow: map[*mbuf]bool{}, allowed: map[*mbuf][]brange{}, isDetached: map[*mbuf]bool{}}
 	defer h.release()
 	rt := h.rt
 	rt.SetRandSource(func() float64 { return 0.5 })
@@ -662,6 +664,24 @@ func (e *bufsim) runPass(w *bwork, plan []*bfault, res *core.Result, want bool) 
 		}
 		h.probe(int(call.Argument(0).ToInteger()), false, arg)
 		return call.Argument(1)
+	})
+	// GW / DT: side effects a callback of the workload asks the host for (Go-side write, revocation); fully modelled
+	rt.Set("GW", func(call goja.FunctionCall) goja.Value {
+		bi, off := int(call.Argument(0).ToInteger()), int(call.Argument(1).ToInteger())
+		if bi >= 0 && bi < len(h.bufs) && h.bufs[bi] != nil {
+			if mem := h.bufs[bi].ab.Bytes(); off >= 0 && off < len(mem) {
+				mem[off] = byte(call.Argument(2).ToInteger())
+			}
+		}
+		return goja.Undefined()
+	})
+	rt.Set("DT", func(call goja.FunctionCall) goja.Value {
+		bi := int(call.Argument(0).ToInteger())
+		if bi >= 0 && bi < len(m.bufs) && !m.bufs[bi].absent && h.detach(m.bufs[bi]) {
+			h.detachedNow[m.bufs[bi]] = true
+			res.Count("detach-fired-mid-operation", 1)
+		}
+		return goja.Undefined()
 	})
 	rt.Set("SC", h.speciesHook)
 	rt.Set("SB", h.bufSpeciesHook)
@@ -1119,8 +1139,15 @@ func (e *bufsim) runPass(w *bwork, plan []*bfault, res *core.Result, want bool) 
 				for _, b := range m.bufs {
 					relaxed[b] = append(append([]brange(nil), b.dirty...), h.allowed[b]...)
 				}
-				for b := range h.detachedNow {
-					b.detached = true
+				if mb, lo, hi := op.mutRange(m); mb != nil {
+					relaxed[mb] = append(relaxed[mb], brange{lo, hi})
+				}
+				// in a faulted step a callback of the workload may not have been reached (or an extra detach fired): the
+				// detached state is what the host really did
+				for _, b := range m.bufs {
+					if !b.absent && b.id >= 0 {
+						b.detached = h.isDetached[b]
+					}
 				}
 			}
 			sweep(op, sig, relaxed, si == len(w.ops)-1)
